@@ -135,3 +135,79 @@ def install_token_monitors(rec):
     undo += patch_everywhere(o_rep, replace_token)
     undo += patch_everywhere(o_look, replace_token_from_lookup)
     return undo
+
+
+# ---------------------------------------------------------------------------------------------
+# C12: Equation.AddTerm value post-condition (in situ)
+# ---------------------------------------------------------------------------------------------
+
+_DY = [1.0, 2.0, 4.0, 0.5, 3.0, 5.0, 1.5, 0.25, 6.0, 8.0, 7.0, 0.75, 1.25, 2.5]
+
+
+class HashEnv(dict):
+    """Valuation of arbitrary names by a hash of the name (exactly representable values)."""
+
+    def __init__(self, salt=0):
+        dict.__init__(self)
+        self.salt = salt
+
+    def __missing__(self, name):
+        import zlib
+        v = _CallNum(_DY[(zlib.crc32(name.encode('utf-8')) + self.salt) % len(_DY)])
+        self[name] = v
+        return v
+
+
+class _CallNum(float):
+    def __call__(self, *a):
+        return _CallNum(float(self) * 0.5)
+
+
+def eval_hash(src, salt=0):
+    import math
+    g = {'__builtins__': {}, 'max': max, 'min': min, 'abs': abs, 'float': float, 'pow': pow,
+         'sqrt': math.sqrt, 'exp': math.exp, 'log': math.log}
+    return eval(src, g, HashEnv(salt))
+
+
+def install_addterm_monitor(rec):
+    from sfc_models.equation import Equation, Term
+    orig = Equation.AddTerm
+
+    def AddTerm(self, term):
+        rec.count('addterm.calls')
+        before = None
+        try:
+            before_src = self.GetRightHandSide()
+            t = Term(term)
+            if t.IsBlob:
+                tsrc = t.Term if t.Term != '' else '0.0'
+                tval = [eval_hash(tsrc, s) for s in (0, 1)]
+            else:
+                tval = [t.Constant * eval_hash(t.Term, s) for s in (0, 1)]
+            before = [eval_hash(before_src, s) for s in (0, 1)]
+            if not all(isinstance(v, (int, float)) for v in before + tval):
+                raise TypeError('non-numeric')
+        except Exception:
+            before = None
+            rec.count('addterm.skipped_unevaluable')
+        out = orig(self, term)
+        if before is not None:
+            try:
+                after_src = self.GetRightHandSide()
+                for i, s in enumerate((0, 1)):
+                    after = eval_hash(after_src, s)
+                    exp = before[i] + tval[i]
+                    if abs(after - exp) > 1e-9 * max(1.0, abs(exp), abs(after)):
+                        rec.violate('insitu_addterm_value',
+                                    {'lhs': self.LeftHandSide, 'before': before_src, 'term': str(term),
+                                     'after': after_src, 'expected': exp, 'got': after})
+                        break
+                else:
+                    rec.count('addterm.post_evaluated')
+            except Exception:
+                rec.count('monitor_error')
+        return out
+
+    Equation.AddTerm = AddTerm
+    return [(Equation, 'AddTerm', orig)]
